@@ -29,7 +29,7 @@ def run():
     last = {}
     orig = Inverter._map_response
 
-    def mapper(response, sensors):
+    def mapper(response, sensors, *more, **kw):
         cmd = response.command
         first = getattr(cmd, 'first_address', None) if type(cmd).__name__.startswith('Modbus') else None
         try:
@@ -45,7 +45,7 @@ def run():
                 if pos < 0 or pos + n > len(raw):
                     continue
                 last[s.id_] = (refdec.decode(s, bytes(raw[pos:pos + n])), tname(s), bytes(raw[pos:pos + n]).hex(), s)
-        return orig(response, sensors)
+        return orig(response, sensors, *more, **kw)
 
     stats = dict(n=0, ok=0)
     mism = []
